@@ -10,11 +10,13 @@ PROPS['C31'] = dict(
     ties=[dict(name='TIE-F events', vh='events', model='events', n=dict(quick=120, thorough=6000), kinds=['C31'])],
     rule='grid: write kind (create, revert, set/delete metadata on transaction/account) x context (single on an in-use ledger, first write on an initializing ledger, atomic bulk, '
          'non-atomic bulk, both with and without continueOnFailure, both bulks on an initializing ledger; the write is the middle element of [ok, w, ok]) x outcome (ok, business failure, '
-         'dry run, idempotent replay, a driver error injected at EVERY statement index of the operation, COMMIT failure at every COMMIT of the operation) + random histories of 1..6 steps '
-         '(single writes / bulks of 1..4 elements, replays under idempotency keys, 10% dry runs, random statement/COMMIT faults, initializing or in-use ledger); '
+         'dry run, idempotent replay, a driver error injected at EVERY statement index of the operation, COMMIT failure at every COMMIT of the operation, the request context CANCELLED right after '
+         'statement k for the statement indices of the operation (every other one in the quick tier; the statement then reports context.Canceled) and right before every top-level COMMIT with '
+         'database/sql having already rolled the transaction back (sql.Tx.Commit returns sql.ErrTxDone)) + random histories of 1..6 steps '
+         '(single writes / bulks of 1..4 elements, replays under idempotency keys, 10% dry runs, random statement/COMMIT/cancellation faults, initializing or in-use ledger); '
          'n = number of random histories; non-trivial = trace with at least one listener call',
     explanation='PARTIAL (one open finding). PROVED (C31_partial, no bound on histories or bulk sizes): on ANY ledger, initializing or in use, without idempotent replays, every history of single '
-                'writes (any outcome, dry or not), atomic / non-atomic bulks and COMMIT faults yields a trace in which each listener call follows the successful COMMIT of the top-level transaction '
+                'writes (any outcome, dry or not, or interrupted by a context cancellation at a statement), atomic / non-atomic bulks, COMMIT failures and context cancellations before any COMMIT yields a trace in which each listener call follows the successful COMMIT of the top-level transaction '
                 'that appended its log (C31_after_commit gives the declarative reading), nothing is published for failed, dry-run, rolled-back or commit-failed writes, and every committed write is '
                 'published exactly once. REFUTED part (S-31b, C31_refuted_replay, known finding): an idempotent replay re-publishes the event of the stored log. The model follows the code after the '
                 'repair of KF-C31-first-write-event-before-commit (LockLedger propagates hasTx); the pre-fix variant of the model survives only as historical Examples (C31_pre_fix_*), not tied to the code. '
@@ -28,6 +30,11 @@ PROPS['C31'] = dict(
     level_note='The write itself is abstract (fails / appends one log / replay); write kinds are uniform in the model (the seven ControllerWithEvents methods have one shape) and distinguished only in the tie. '
                'Parallel bulks are not part of the events tie. InsertSchema is modelled (same shape) but not exercised by the tie.',
 )
+
+# C07 view of the cancellation faults: a request whose context is cancelled (at any statement, or right before COMMIT) and
+# that committed no transaction leaves the ledger snapshot (all read paths + raw tables) unchanged
+PROPS['C07']['ties'].append(dict(name='TIE-F cancel', vh='events', model='events', n=dict(quick=0, thorough=0),
+                                 args=dict(all=['-faults', 'cancel']), kinds=['C07']))
 
 PROPS['C32'] = dict(
     target='Props/C32',
